@@ -114,6 +114,8 @@ void hazard_eras<Traits>::guard_ptr<T, MarkedPtr>::acquire(const concurrent_ptr<
       }
       he->release_guard();
       he = nullptr;
+      // we are no longer protected; in case the allocation below throws the guard must be empty
+      this->ptr.reset();
     }
     assert(he == nullptr);
     he = local_thread_data().alloc_hazard_era(era);
@@ -147,6 +149,10 @@ bool hazard_eras<Traits>::guard_ptr<T, MarkedPtr>::acquire_if_equal(const concur
   } else {
     if (he != nullptr) {
       he->release_guard();
+      // in case the allocation below throws the guard must be empty and must not
+      // reference the hazard era it has just released
+      he = nullptr;
+      this->ptr.reset();
     }
 
     he = local_thread_data().alloc_hazard_era(era);
